@@ -53,6 +53,8 @@ def impl(case):
             pdu = PDUData()
             tl.encode(pdu)
             return {"r": "ok", "hex": bytes(pdu.pduData).hex()}
+        if op == "dec" and case.get("via"):
+            return impl_via(case)
         if op == "dec":
             pdu = PDUData(bytes.fromhex(case["hex"]))
             tl = TagList()
@@ -105,6 +107,67 @@ def impl(case):
     except Exception as e:
         return {"r": "err", "k": core.exc_kind(e)}
     raise core.Infra("bad op")
+
+
+VIAS = ["scratch", "scratch-set", "comm.PDUData", "comm.PDU", "pdu.PDU", "pdu.PDUData", "ctor", "tagctor",
+        "mutate", "bytearray"]
+_keep = []          # decoded tags kept alive across cases (object identity / aliasing oracle)
+
+
+def impl_via(case):
+    """the same octets decoded the other ways the library's own callers do it: one scratch Tag object
+    walked over the stream, every buffer class of comm.py / pdu.py, the constructor forms; `mutate`
+    additionally appends IN PLACE to every mutable tagData it got back (what OctetString.value += ... and
+    the segment reassembly do to decoded buffers) AFTER recording the result.  Every variant must answer
+    exactly as the plain path does (the model is told nothing about the variant)."""
+    import bacpypes.comm as comm
+    import bacpypes.pdu as pdu_mod
+    from bacpypes.primitivedata import Tag, TagList
+    via = case["via"]
+    raw = bytes.fromhex(case["hex"])
+    bufcls = {"comm.PDUData": comm.PDUData, "comm.PDU": comm.PDU, "pdu.PDU": pdu_mod.PDU,
+              "pdu.PDUData": pdu_mod.PDUData}.get(via, pdu_mod.PDUData)
+    buf = bufcls(bytearray(raw) if via == "bytearray" else raw)
+    out = pdu_mod.PDUData()
+    alias = None
+    if via in ("scratch", "scratch-set"):
+        t = Tag()
+        if via == "scratch-set":
+            t.set(Tag.applicationTagClass, 6, 3, b"abc")
+        tags = []
+        while buf.pduData:
+            t.decode(buf)
+            tags.append(jtag(t))
+            t.encode(out)
+        return {"r": "ok", "tags": tags, "re": bytes(out.pduData).hex()}
+    if via == "ctor":
+        tl = TagList(buf)
+        if buf.pduData:
+            return {"r": "err", "k": "python:NotConsumed"}
+    elif via == "tagctor":
+        tl = TagList()
+        while buf.pduData:
+            tl.append(Tag(buf))
+    else:
+        tl = TagList()
+        tl.decode(buf)
+    tl.encode(out)
+    res = {"r": "ok", "tags": [jtag(t) for t in tl.tagList], "re": bytes(out.pduData).hex()}
+    # aliasing: no two decoded tags (of this list or of earlier ones still alive) share a mutable buffer
+    mut = [t for t in tl.tagList if isinstance(t.tagData, bytearray)]
+    seen = {}
+    for t in _keep + mut:
+        if id(t.tagData) in seen and seen[id(t.tagData)] is not t:
+            alias = "two decoded tags share one tagData object"
+        seen[id(t.tagData)] = t
+    if via == "mutate":
+        for t in mut:
+            t.tagData += b"\x55"
+        _keep.extend(mut[:2])
+        del _keep[:-16]
+    if alias:
+        res["alias"] = alias
+    return res
 
 
 # ---------------------------------------------------------------- oracle
@@ -178,6 +241,23 @@ def oracle(ctx, case, a):
     if a.get("r") == "err" and a["k"].startswith("python:"):
         ctx.fail("unexpected-exception", case, "raised %s (only InvalidTag/DecodingError allowed)" % a["k"])
         return
+    if op == "enc" and a.get("r") == "ok" and len(a["hex"]) < 4000:
+        # the same list encoded the other ways callers do it: into each buffer class, behind octets that
+        # are already there, twice from the same objects
+        import bacpypes.comm as comm
+        import bacpypes.pdu as pdu_mod
+        from bacpypes.primitivedata import TagList
+        tl = TagList([impl_tag(t) for t in case["tags"]])
+        for name, mk in (("comm.PDUData", comm.PDUData), ("comm.PDU", comm.PDU), ("pdu.PDU", pdu_mod.PDU)):
+            try:
+                buf = mk(b"\x01\x02")
+                tl.encode(buf)
+                got = bytes(buf.pduData).hex()
+            except Exception as e:
+                got = "raised " + core.exc_kind(e)
+            if got != "0102" + a["hex"]:
+                ctx.fail("usage-dependent", case, "encoding the same tag objects again into a %s holding 01 02 gives %s" % (name, got[:80]))
+                break
     if op == "enc":
         # decode(encode(ts)) == ts, every octet consumed; canonical headers
         back = impl({"op": "dec", "hex": a["hex"]})
@@ -201,6 +281,22 @@ def oracle(ctx, case, a):
                              "a stream truncated inside a tag was accepted as %d tag(s)" % len(r["tags"]))
                     break
     elif op == "dec":
+        if a.get("alias"):
+            ctx.fail("alias", case, a.pop("alias"))
+        if a["r"] == "ok":
+            # a decoded tag is self-consistent: LVT is the length of its data (the value, without data,
+            # for an application boolean; nothing for opening/closing)
+            for t in a["tags"]:
+                want = 0 if (t[0] in (2, 3) or (t[0] == 0 and t[1] == 1)) else t[2]
+                if len(t[3]) // 2 != want:
+                    ctx.fail("tag-inconsistent", case, "decoded tag %r: LVT/class prescribe %d data octets, it holds %d" % (
+                        [t[0], t[1], t[2], t[3][:40]], want, len(t[3]) // 2))
+                    break
+        if case.get("via"):
+            plain = impl({"op": "dec", "hex": case["hex"]})
+            if {k: v for k, v in a.items() if k != "alias"} != plain:
+                ctx.fail("usage-dependent", case, "decoding via %s answers %s, the plain TagList.decode of the same octets answers %s" % (
+                    case["via"], str(a)[:200], str(plain)[:200]))
         if a["r"] == "ok":
             back = impl({"op": "dec", "hex": a["re"]})
             if back.get("r") != "ok" or back["tags"] != a["tags"]:
@@ -301,6 +397,24 @@ def gen_dec_mutated(ctx, rng, enc_cases, impl_enc):
     return cases
 
 
+def gen_via(ctx, rng, dec_cases):
+    """usage histories inside ONE process: the decode variants over directed streams (zero-length tags,
+    booleans after data tags) and a sample of the mutated streams; `mutate` cases come early and are
+    interleaved so that whatever they leave behind is seen by the cases that follow"""
+    directed = ["", "00", "0e0f", "60", "08", "70", "80", "1e1f", "6361626311", "11", "10", "636162631100",
+                "6361626310", "2e0f", "3e65036162633f", "0e00600f", "11" * 5, "6361626311" * 3, "09001901",
+                "650661626364656611", "75080061626364656667" + "10", "0e" + "6103616263"[0:0] + "0f" + "11"]
+    pool = directed + [c["hex"] for c in dec_cases[: (300 if ctx.quick else 4000)] if len(c["hex"]) < 400]
+    cases = []
+    for i, h in enumerate(pool):
+        vs = VIAS if i < len(directed) else [rng.choice(VIAS), "mutate" if i % 3 == 0 else rng.choice(VIAS)]
+        for v in vs:
+            cases.append({"op": "dec", "hex": h, "via": v})
+    # and once more the directed ones after all the mutation that went before
+    cases += [{"op": "dec", "hex": h, "via": v} for h in directed for v in ("pdu.PDUData", "scratch")]
+    return cases
+
+
 def gen_shapes(ctx, rng):
     """all shapes over {app, ctx c0, ctx c1, open c0, open c1, close c0, close c1}"""
     alphabet = [[0, 2, 1, "07"], [1, 0, 1, "aa"], [1, 1, 1, "bb"],
@@ -394,6 +508,8 @@ def esc_class(lvt):
 def sig(case, m):
     if m.get("r") == "err":
         return ("err", m["k"], len(case.get("hex", "")) // 2 if case["op"] == "dec" else len(case.get("tags", [])))
+    if case["op"] == "dec" and case.get("via"):
+        return (case["via"],) + tuple((t[0], min(t[1], 16), esc_class(t[2])) for t in m["tags"][:2])
     if case["op"] == "dec":
         return tuple((t[0], min(t[1], 16), esc_class(t[2])) for t in m["tags"][:4])
     if case["op"] == "enc":
@@ -433,7 +549,9 @@ def run(ctx):
     rng = ctx.sub_rng("c02")
     enc = gen_enc(ctx, rng)
     impl_enc = run_cases(ctx, "enc", enc)
-    run_cases(ctx, "dec-mutated", gen_dec_mutated(ctx, rng, enc, impl_enc))
+    mutated = gen_dec_mutated(ctx, rng, enc, impl_enc)
+    run_cases(ctx, "dec-mutated", mutated)
+    run_cases(ctx, "dec-via", gen_via(ctx, rng, mutated))
     shapes = gen_shapes(ctx, rng)
     run_cases(ctx, "shapes", shapes)
     run_cases(ctx, "noncanonical", gen_noncanonical(ctx, rng))
